@@ -166,6 +166,11 @@ func check(run *stats.Run, f stats.Failer, c Case) verdict {
 	}
 	// accepted
 	v.labels = append(v.labels, "accepted")
+	for _, l := range c.Gen.Labels {
+		if strings.HasPrefix(l, "eq-") || l == "let" {
+			v.labels = append(v.labels, "accepted+"+l)
+		}
+	}
 	if unsafeWhy != "" {
 		run.Failf(f, "analysis accepted an unsafe rule (%s)\nprogram:\n%s", unsafeWhy, text)
 	}
@@ -271,7 +276,7 @@ func mutate(t *rapid.T, g *prog.Generated) []string {
 		ri := rapid.IntRange(0, len(g.Prog.Rules)-1).Draw(t, "rule")
 		r := &g.Prog.Rules[ri]
 		fresh := fmt.Sprintf("U%d", i)
-		switch kind := rapid.IntRange(0, 6).Draw(t, "mut"); kind {
+		switch kind := rapid.IntRange(0, 8).Draw(t, "mut"); kind {
 		case 0, 1: // shuffle the body
 			perm := rapid.Permutation(r.Body).Draw(t, "perm")
 			r.Body = perm
@@ -335,6 +340,20 @@ func mutate(t *rapid.T, g *prog.Generated) []string {
 				r.Body = append([]prog.Lit{l}, rest...)
 				muts = append(muts, "filter-first")
 			}
+		case 7, 8: // move one equality (definition, alias or filter) to the front
+			var idx []int
+			for li, l := range r.Body {
+				if l.K == prog.LEq {
+					idx = append(idx, li)
+				}
+			}
+			if len(idx) > 0 {
+				li := rapid.SampledFrom(idx).Draw(t, "eqi")
+				l := r.Body[li]
+				rest := append(append([]prog.Lit{}, r.Body[:li]...), r.Body[li+1:]...)
+				r.Body = append([]prog.Lit{l}, rest...)
+				muts = append(muts, "eq-first")
+			}
 		case 6: // a wildcard in the head or in a function argument
 			if len(r.Head.Args) > 0 && rapid.Bool().Draw(t, "wh") {
 				r.Head.Args[rapid.IntRange(0, len(r.Head.Args)-1).Draw(t, "wk")] = prog.Var("_")
@@ -345,10 +364,68 @@ func mutate(t *rapid.T, g *prog.Generated) []string {
 	return muts
 }
 
+// addTemplate appends a rule of a shape where the order of premises matters for binding: an alias or an
+// equation with a function expression written BEFORE the atom that binds its variable, optionally feeding a
+// let-transform. Analysis may accept or reject it; if accepted it must be evaluated as written.
+func addTemplate(t *rapid.T, g *prog.Generated) string {
+	var cands []prog.PredInfo
+	for _, p := range g.Schema {
+		if p.Level < 0 && strings.Contains(p.Cols, "n") {
+			cands = append(cands, p)
+		}
+	}
+	if len(cands) == 0 {
+		return ""
+	}
+	p := rapid.SampledFrom(cands).Draw(t, "tplPred")
+	atom := prog.Atom{Pred: p.Name, Args: []prog.Term{}}
+	z := ""
+	for i := range p.Cols {
+		v := fmt.Sprintf("T%d", i)
+		if p.Cols[i] == 'n' && z == "" {
+			z = v
+		}
+		atom.Args = append(atom.Args, prog.Var(v))
+	}
+	k := prog.Num(rapid.Int64Range(0, 2).Draw(t, "tplK"))
+	c := prog.Num(rapid.Int64Range(0, 5).Draw(t, "tplC"))
+	r := prog.Rule{Head: prog.Atom{Pred: "th", Args: []prog.Term{prog.Var("W")}}}
+	alias := prog.EqLit(prog.Var("Y"), prog.Var(z))
+	if rapid.Bool().Draw(t, "tplAliasFlip") {
+		alias = prog.EqLit(prog.Var(z), prog.Var("Y"))
+	}
+	shape := rapid.SampledFrom([]string{"alias-let", "alias-eqdef", "const=fn", "fn=const", "alias-after-let", "fn-def-first"}).Draw(t, "tplShape")
+	switch shape {
+	case "alias-let":
+		r.Body = []prog.Lit{alias, prog.PosLit(atom)}
+		r.Let = []prog.LetStmt{{Var: "W", Fn: prog.Fn("fn:plus", prog.Var("Y"), k)}}
+	case "alias-eqdef":
+		r.Body = []prog.Lit{alias, prog.PosLit(atom), prog.EqLit(prog.Var("W"), prog.Fn("fn:plus", prog.Var("Y"), k))}
+	case "const=fn":
+		r.Head.Args = []prog.Term{prog.Var(z)}
+		r.Body = []prog.Lit{prog.EqLit(c, prog.Fn("fn:plus", prog.Var(z), k)), prog.PosLit(atom)}
+	case "fn=const":
+		r.Head.Args = []prog.Term{prog.Var(z)}
+		r.Body = []prog.Lit{prog.EqLit(prog.Fn("fn:plus", prog.Var(z), k), c), prog.PosLit(atom)}
+	case "alias-after-let":
+		r.Body = []prog.Lit{prog.PosLit(atom), alias}
+		r.Let = []prog.LetStmt{{Var: "W", Fn: prog.Fn("fn:mult", prog.Var("Y"), k)}}
+	case "fn-def-first":
+		r.Body = []prog.Lit{prog.EqLit(prog.Var("W"), prog.Fn("fn:plus", prog.Var(z), k)), prog.PosLit(atom)}
+	}
+	g.Prog.Rules = append(g.Prog.Rules, r)
+	return "template:" + shape
+}
+
 func genCase(t *rapid.T) Case {
 	g := prog.Gen(prog.AllFeatures).Draw(t, "prog")
 	c := Case{Gen: g}
-	c.Mutations = mutate(t, &c.Gen)
+	if rapid.IntRange(0, 5).Draw(t, "template") == 0 {
+		if name := addTemplate(t, &c.Gen); name != "" {
+			c.Mutations = append(c.Mutations, name)
+		}
+	}
+	c.Mutations = append(c.Mutations, mutate(t, &c.Gen)...)
 	c.Text = c.Gen.Prog.Source()
 	return c
 }
